@@ -159,9 +159,33 @@ def parse_cases(path):
     cases = {}
     for line in open(path):
         p = line.rstrip("\n").split("\t")
-        if len(p) >= 4:
+        if len(p) >= 4 and p[1] == "S":
             cases[p[0]] = (p[2], p[3])
     return cases
+
+
+def parse_xcases(path):
+    cases = {}
+    for line in open(path):
+        p = line.rstrip("\n").split("\t")
+        if len(p) >= 4 and p[1] == "X":
+            cases[p[0]] = (p[2], p[3])
+    return cases
+
+
+def oracle_x(xcases, impl):
+    """index keys of the mem engine: decodable, ordered like the keys, prefix free"""
+    fails = []
+    for cid, (h1, h2) in xcases.items():
+        k1, k2 = unh(h1), unh(h2)
+        f = (impl.get(cid) or "").split(" ")
+        want_sign = (k1 > k2) - (k1 < k2)
+        ok = len(f) == 4 and unh(f[1]) == k1 and int(f[2]) == want_sign and (f[3] == "0" or k1 == k2)
+        if not ok:
+            fails.append(dict(name="idx-" + cid, cid=cid,
+                              case=dict(k1=h1, k2=h2, impl=impl.get(cid), cases_tsv=["%s\tX\t%s\t%s" % (cid, h1, h2)]),
+                              what="radix index key codec is not order preserving / prefix free / invertible"))
+    return fails
 
 
 # ---------------------------------------------------------------------------------------------
@@ -356,6 +380,9 @@ def run(ctx):
         cases = parse_cases(os.path.join(d, "cases.tsv"))
         impl, _ = vlib.read_out(os.path.join(d, "impl.out"))
         fails, hist = oracle(cases, impl)
+        xcases = parse_xcases(os.path.join(d, "cases.tsv"))
+        xfails = oracle_x(xcases, impl)
+        hist["indexkey_cases"] = len(xcases)
         for f in fails[:3]:
             eng, script = cases[f["cid"]]
             if f["name"].startswith("ref-") and len(script) < 4000:
@@ -367,7 +394,7 @@ def run(ctx):
             f["case"].setdefault("cases_tsv", ["\t".join([k, "S", v[0], v[1]]) for k, v in cases.items()
                                                 if k.rsplit(".", 1)[0] == base])
         all_mism += [(m[0], m[1], m[2]) for m in mism]
-        all_fail += fails
+        all_fail += fails + xfails
         total += cnt
         for k, v in hist.items():
             hist_all[k] = hist_all.get(k, 0) + v
